@@ -124,6 +124,7 @@ func (s *gosched) run() bool {
 		t := live[s.rc.Tape.Choose(len(live))]
 		s.current = t
 		s.steps++
+		s.rc.Progress() // no-progress watchdog (scenarios with HangTimeout): a task that blocks for real stops this
 		t.resume <- struct{}{}
 		ev := <-s.event
 		s.current = nil
